@@ -291,6 +291,180 @@ fn bias_codec(m: BiasMsg, sig_index: usize, sat: u8) -> Codec<'static> {
     }
 }
 
+// ---- bias values inside lists given in caller order ----
+/// one list: entries (satellite, signal index, grid index k, t); every entry's decoded value must be one of the two
+/// neighbours of its own input, whatever the order the caller listed the entries in
+fn bias_list_case(m: BiasMsg, items: &[(u8, usize, i64, f64)]) -> Result<u64, (String, String)> {
+    use crate::checks::c16;
+    let w = m.bias_bits() as u32;
+    let g = c16::grid(m);
+    let mut es: Vec<c16::Entry> = Vec::new();
+    let mut meta: Vec<(f64, f64, f64)> = Vec::new();
+    for (sat, si, k, t) in items {
+        let (_, band, attr) = m.signals()[*si % m.signals().len()];
+        let g0 = g[pattern_of(Kind::I, w, *k) as usize] as f64;
+        let g1 = g[pattern_of(Kind::I, w, *k + 1) as usize] as f64;
+        if !(g1 > g0) {
+            return Ok(0);
+        }
+        let x = ((g0 + t * (g1 - g0)) as f32).clamp(g0 as f32, g1 as f32);
+        es.push(c16::Entry { sat: *sat, band, attr, bias: x });
+        meta.push((g0, g1, x as f64));
+    }
+    let msg = match c16::make_message(m, &es) {
+        Some(x) => x,
+        None => return Ok(0),
+    };
+    let mut b = MessageBuilder::new();
+    let f = match b.build_message(&msg) {
+        Ok(f) => f.to_vec(),
+        Err(_) => return Ok(0),
+    };
+    let back = MessageFrame::new(&f).map_err(|e| (format!("c11:bias{}:frame", m.number()), format!("{:?}", e)))?.get_message();
+    let dec = match c16::entries_of(&back) {
+        Some(d) => d,
+        None => return Ok(0), // a C16 / C01 matter
+    };
+    let mut inside = 0;
+    for (e, (g0, g1, x)) in es.iter().zip(meta.iter()) {
+        if let Some(d) = dec.iter().find(|d| d.sat == e.sat && d.band == e.band && d.attr == e.attr) {
+            let step = g1 - g0;
+            let slack = 16.0 * 2f64.powi(-24) * (g0.abs().max(g1.abs()).max(x.abs()) + step);
+            let dv = d.bias as f64;
+            if (dv - x).abs() > step / 2.0 + slack {
+                return Err((
+                    format!("c11:bias{}:not-nearest", m.number()),
+                    format!(
+                        "{} list of {} entries in caller order: entry (satellite {}, signal {}{}) with input {:e} in [{:e},{:e}] comes back as {:e}, {:e} away (half step {:e})",
+                        m.number(),
+                        es.len(),
+                        e.sat,
+                        e.band,
+                        e.attr,
+                        x,
+                        g0,
+                        g1,
+                        dv,
+                        (dv - x).abs(),
+                        step / 2.0
+                    ),
+                ));
+            }
+            if *x > *g0 && *x < *g1 {
+                inside += 1;
+            }
+        }
+    }
+    Ok(inside)
+}
+fn bias_list_items(rng: &mut crate::rng::Rng, m: BiasMsg, arrangement: u64) -> Vec<(u8, usize, i64, f64)> {
+    let w = m.bias_bits() as u32;
+    let (kmin, kmax) = k_range(Kind::I, w);
+    let nsig = m.signals().len();
+    let mut keys: Vec<(u8, usize)> = Vec::new();
+    match m {
+        BiasMsg::M1230 => {
+            // every ordered arrangement of every subset of the four signals, in turn (65 of them incl. the empty one)
+            let mut all: Vec<Vec<usize>> = vec![vec![]];
+            for a in 0..4 {
+                all.push(vec![a]);
+                for b in 0..4 {
+                    if b != a {
+                        all.push(vec![a, b]);
+                        for c in 0..4 {
+                            if c != a && c != b {
+                                all.push(vec![a, b, c]);
+                                for d in 0..4 {
+                                    if d != a && d != b && d != c {
+                                        all.push(vec![a, b, c, d]);
+                                    }
+                                }
+                            }
+                        }
+                    }
+                }
+            }
+            keys = all[(arrangement % all.len() as u64) as usize].iter().map(|s| (0u8, *s)).collect();
+        }
+        _ => {
+            let nsat = 1 + rng.below(6) as usize;
+            let sat_range = if m == BiasMsg::M1059 { 64 } else { 32 };
+            let mut sats: Vec<u8> = Vec::new();
+            while sats.len() < nsat {
+                let s = rng.below(sat_range) as u8;
+                if !sats.contains(&s) {
+                    sats.push(s);
+                }
+            }
+            for s in sats {
+                let per = 1 + rng.below(nsig.min(5) as u64) as usize;
+                let mut sig: Vec<usize> = (0..nsig).collect();
+                rng.shuffle(&mut sig);
+                for g in sig.into_iter().take(per) {
+                    keys.push((s, g));
+                }
+            }
+            rng.shuffle(&mut keys);
+        }
+    }
+    keys.into_iter()
+        .map(|(s, g)| {
+            let k = match rng.below(8) {
+                0 => kmin + 1 + rng.below(3) as i64,
+                1 => kmax - 2 - rng.below(3) as i64,
+                2 => rng.below(4) as i64 - 2,
+                _ => kmin + 1 + rng.below((kmax - kmin - 2) as u64) as i64,
+            };
+            let t = match rng.below(6) {
+                0 => 0.0,
+                1 => 0.499999,
+                2 => 0.500001,
+                _ => rng.f64_unit(),
+            };
+            (s, g, k, t)
+        })
+        .collect()
+}
+fn bias_lists_pass(ctx: &Ctx) -> (Evidence, Vec<Violation>) {
+    let n = ctx.n(240_000, 24_000_000);
+    par_shards(48, |shard| {
+        let mut ev = Evidence::new();
+        ev.sample_cap = 0;
+        let mut vs: Vec<Violation> = Vec::new();
+        let m = [BiasMsg::M1059, BiasMsg::M1065, BiasMsg::M1230][shard % 3];
+        let mut rng = ctx.rng("c11-bias-lists", shard as u64);
+        for i in 0..n / 48 {
+            let items = bias_list_items(&mut rng, m, i * 16 + (shard / 3) as u64);
+            ev.evaluations += items.len() as u64;
+            let r = catch(|| bias_list_case(m, &items));
+            let r = match r {
+                Ok(r) => r,
+                Err(p) => Err((panic_signature(&p), format!("panic: {}", p))),
+            };
+            match r {
+                Ok(inside) => {
+                    ev.distinct_by_construction += inside;
+                    let sorted = items.windows(2).all(|p| (p[0].0, p[0].1) <= (p[1].0, p[1].1));
+                    ev.class_n(if items.len() >= 2 && !sorted { "bias-list/caller-order-not-canonical" } else { "bias-list/canonical-or-single" }, 1);
+                }
+                Err((sig, msg)) => {
+                    if ctx.is_known(&sig) {
+                        ev.excluded_known += 1;
+                    } else if vs.is_empty() {
+                        vs.push(Violation {
+                            property: "C11".into(),
+                            signature: sig,
+                            message: msg,
+                            case: json!({"kind":"bias-list","message":m.number(),"items":items.iter().map(|(s,g,k,t)| json!([s,g,k,t])).collect::<Vec<_>>()}),
+                        });
+                    }
+                }
+            }
+        }
+        (ev, vs)
+    })
+}
+
 fn codec_by_name(name: &str) -> Option<Codec<'static>> {
     match name {
         "bias1059" => Some(bias_codec(BiasMsg::M1059, 0, 7)),
@@ -307,7 +481,7 @@ pub fn run(ctx: &Ctx, replay: Option<&J>) -> CheckResult {
          seeded random) x t in {{1e-9,1e-6,.1,.25,.49,.499999,.5,.500001,.51,.75,.9,.999999,1-1e-9}} + 3 random t + the grid points themselves (t=0, t=1); input x = g(k)+t*(g(k+1)-g(k)) rounded to the field's \
          float type, g = the decoder applied to consecutive patterns (intervals touching the 'absent' marker skipped). oracle: encode(x) is k or k+1, \
          |g(encode(x))-x| <= step/2 + 16u(max|g|,|x| + step) with u=2^-24/2^-53, indexes non-decreasing in x. non-trivial = input strictly between two grid points; \
-         distinct = (field,k,t)",
+         distinct = (field,k,t). plus bias lists in caller order: 1230 lists in every ordered arrangement of every subset of its four signals and 1059/1065 lists of 1..=6 satellites x 1..=5 signals in shuffled order, every entry an off-grid value, each entry's decoded value compared with its own input under the same bound",
         nfloat
     );
     let assumptions = vec![
@@ -318,7 +492,24 @@ pub fn run(ctx: &Ctx, replay: Option<&J>) -> CheckResult {
         let mut ev = Evidence::new();
         ev.eval();
         let mut vs = Vec::new();
-        if let Some(codec) = codec_by_name(c["field"].as_str().unwrap_or("")) {
+        if c["kind"] == "bias-list" {
+            let m = match c["message"].as_u64() {
+                Some(1059) => BiasMsg::M1059,
+                Some(1065) => BiasMsg::M1065,
+                _ => BiasMsg::M1230,
+            };
+            let items: Vec<(u8, usize, i64, f64)> = c["items"]
+                .as_array()
+                .map(|a| a.iter().map(|x| (x[0].as_u64().unwrap_or(0) as u8, x[1].as_u64().unwrap_or(0) as usize, x[2].as_i64().unwrap_or(0), x[3].as_f64().unwrap_or(0.0))).collect())
+                .unwrap_or_default();
+            let r = match catch(|| bias_list_case(m, &items)) {
+                Ok(r) => r,
+                Err(p) => Err((panic_signature(&p), format!("panic: {}", p))),
+            };
+            if let Err((sig, msg)) = r {
+                vs.push(Violation { property: "C11".into(), signature: sig, message: msg, case: c.clone() });
+            }
+        } else if let Some(codec) = codec_by_name(c["field"].as_str().unwrap_or("")) {
             let k = c["k"].as_i64().unwrap_or(0);
             let ts: Vec<f64> = c["ts"].as_array().map(|a| a.iter().filter_map(|x| x.as_f64()).collect()).unwrap_or_else(|| TS.to_vec());
             let r = catch(|| interval(&codec, k, &ts));
@@ -398,6 +589,9 @@ pub fn run(ctx: &Ctx, replay: Option<&J>) -> CheckResult {
         ev.merge(e);
         vs.extend(v);
     }
+    let (bev, bvs) = bias_lists_pass(ctx);
+    ev.merge(bev);
+    vs.extend(bvs);
     ev.extra.insert("float_fields".into(), json!(nfloat));
     vs.truncate(8);
     CheckResult { evidence: ev, rule, assumptions, violations: vs }
